@@ -350,6 +350,15 @@ def check_apply(rng):
     want = pts @ R.T + np.array(digs) / 12
     if not np.allclose(a3, want, atol=1e-12):
         return f"apply(x) != x·Rᵀ + t for op {ref_str(rot, digs)}", (rot, digs)
+    # a second operation equal to the first modulo the lattice (whole cells added, noise far below 1/24), used AFTER the first:
+    # its own 3-vector and homogeneous forms must still agree with each other
+    shift = np.array([rng.choice([-2, -1, 0, 1, 3]) for _ in range(3)]) + np.array([rng.choice([0.0, -1e-12, 1e-12, 3e-5, -3e-5]) for _ in range(3)])
+    s2 = S(R, np.array(digs) / 12 + shift)
+    b3 = s2.apply(pts)
+    b4 = s2.apply(np.hstack([pts, np.ones((len(pts), 1))]))
+    if not np.allclose(b3, b4[:, :3], atol=1e-9):
+        return (f"after using op {ref_str(rot, digs)}, an operation equal to it modulo the lattice (translation shifted by {shift.tolist()}) applies "
+                f"differently to 3-vectors and to homogeneous 4-vectors (max difference {np.abs(b3 - b4[:, :3]).max():.3g})"), (rot, digs)
     uc = UnitCell.from_lengths_and_angles([rng.uniform(3, 20) for _ in range(3)], [math.radians(rng.uniform(70, 115)) for _ in range(3)])
     d, i = uc.direct, uc.inverse
     Rc = np.dot(d.T, np.dot(s.rotation, i.T)).T   # as Crystal.cartesian_symmetry_operations builds it
